@@ -3,6 +3,7 @@ CONSTANTS
   MaxIn = 3
   Mode = "syms"
   DevUnderflowPanics = FALSE
+  DevBackrefInvalidUtf8 = FALSE
 SPECIFICATION Spec
 INVARIANT RoundTripStable
 CHECK_DEADLOCK FALSE
